@@ -5,6 +5,7 @@ from __future__ import annotations
 import base64
 import json
 import random
+import urllib.parse
 from typing import Any, Dict, List, Optional
 
 from vf import common as C
@@ -24,8 +25,9 @@ MANIFEST = {
             "Tie: request class grid (route x method x id / idShort-path / body / header / query classes) through werkzeug.test.Client with "
             "store snapshots before/after, compared with the model after every request.",
     "note": "partial: 'no request whatsoever raises' over arbitrary bytes also depends on werkzeug, lxml and json internals (exercised by the "
-            "malformed stream, not proved); update_from raising on a nested class change is a recorded finding (proved witness); handlers "
-            "outside the model (attachments, asset-information, shell/submodel superpath, $reference) are covered by the oracle only",
+            "malformed stream and the oracle's structural mutations of JSON/XML documents over the whole metamodel, not proved); exceptions out of "
+            "update_from are recorded findings; handlers outside the model (attachments, asset-information, shell/submodel superpath, $reference, "
+            "query filters) are covered by the oracle only",
     "technique": "Lean 4 proof: exception-safety predicate proved for every modelled handler, composed over routing; ast-extracted except/raise/status tables; differential correspondence + no-crash/no-5xx/pure-4xx oracle via werkzeug.test.Client",
 }
 ASSUMPTIONS = [
@@ -80,40 +82,99 @@ def rules():
     return _RULES
 
 
+class Checker:
+    """The statement of C11 over the implementation, request by request: no exception out of the WSGI callable, no 5xx other than
+    501 on a declared route, a response >= 400 leaves the store and the file container unchanged and carries the Result structure
+    (406: plain).  Collects every violation of the history (each with the prefix that leads to it)."""
+
+    def __init__(self, file_backed: bool = False):
+        self.fb = file_backed
+        self.srv = c10.Server(file_backed)
+        self.reqs: List[Dict[str, Any]] = []
+        self.fails: List[C.Failing] = []
+
+    def close(self):
+        self.srv.close()
+
+    def step(self, R: Dict[str, Any]) -> Any:
+        srv = self.srv
+        before = srv.snapshot_full()
+        out = srv.send(R)
+        self.reqs.append(R)
+        case = {"mode": "file" if self.fb else "dict", "reqs": list(self.reqs)}
+        shape = f"{R['m']}:{route_shape(R)}"
+        url = c10.url_of(R)[:300]
+        if out[0] == "crash":
+            e = out[1] if isinstance(out[1], str) else "".join(str(x) for x in out[1])
+            sig, why = crash_class(R, self.reqs, srv.last_exc)
+            self.fails.append(C.Failing(sig or f"http:crash:{shape}:{e}", f"{R['m']} {url} raised {out[1]} out of the WSGI callable"
+                                        + (f" ({srv.last_exc[1][:120]})" if srv.last_exc else "") + (f": {why}" if why else ""), case, out))
+            return out
+        status = out[1]
+        if status >= 500 and not (status == 501 and declared_501(R, rules())):
+            self.fails.append(C.Failing(f"http:5xx:{shape}:{status}", f"{R['m']} {url} answered {status}", case, out))
+            return out
+        if status >= 400:
+            after = srv.snapshot_full()
+            if after != before:
+                self.fails.append(C.Failing(f"http:4xx-not-pure:{shape}:{status}", f"{R['m']} {url} answered {status} but changed the store",
+                                            case, after, before))
+                return out
+            body = out[3][0]
+            want = "plain" if status == 406 else "result"
+            if R["m"] != "HEAD" and body != want:
+                self.fails.append(C.Failing(f"http:4xx-body:{shape}:{status}", f"{R['m']} {url} answered {status} with body {str(out[3])[:200]}", case,
+                                            out[3], want))
+        return out
+
+
 def check_history_all(reqs: List[Dict[str, Any]], file_backed: bool = False) -> List[C.Failing]:
-    """The statement of C11 over the implementation: no exception out of the WSGI callable, no 5xx other than 501 on a declared
-    route, a response >= 400 leaves the store snapshot unchanged and carries the Result structure (406: plain).
-    Returns every violation of the history (each with the prefix that leads to it)."""
-    srv = c10.Server(file_backed)
-    fails: List[C.Failing] = []
+    chk = Checker(file_backed)
     try:
-        for k, R in enumerate(reqs):
-            before = srv.snapshot()
-            out = srv.send(R)
-            case = {"mode": "file" if file_backed else "dict", "reqs": reqs[: k + 1]}
-            shape = f"{R['m']}:{route_shape(R)}"
-            if out[0] == "crash":
-                e = out[1] if isinstance(out[1], str) else "".join(str(x) for x in out[1])
-                fails.append(C.Failing(f"http:crash:{shape}:{e}", f"{R['m']} {c10.url_of(R)} raised {out[1]} out of the WSGI callable", case, out))
-                continue
-            status = out[1]
-            if status >= 500 and not (status == 501 and declared_501(R, rules())):
-                fails.append(C.Failing(f"http:5xx:{shape}:{status}", f"{R['m']} {c10.url_of(R)} answered {status}", case, out))
-                continue
-            if status >= 400:
-                after = srv.snapshot()
-                if after != before:
-                    fails.append(C.Failing(f"http:4xx-not-pure:{shape}:{status}", f"{R['m']} {c10.url_of(R)} answered {status} but changed the store",
-                                           case, after, before))
-                    continue
-                body = out[3][0]
-                want = "plain" if status == 406 else "result"
-                if R["m"] != "HEAD" and body != want:
-                    fails.append(C.Failing(f"http:4xx-body:{shape}:{status}", f"{R['m']} {c10.url_of(R)} answered {status} with body {out[3]}", case,
-                                           out[3], want))
-        return fails
+        for R in reqs:
+            chk.step(R)
+        return chk.fails
     finally:
-        srv.close()
+        chk.close()
+
+
+def body_depth(R: Dict[str, Any]) -> int:
+    """nesting depth of a request body (brackets of a JSON text; of no interest for other bodies)"""
+    d = m = 0
+    for ch in base64.b64decode(R.get("bytes") or ""):
+        if ch in (0x5B, 0x7B):
+            d += 1
+            m = max(m, d)
+        elif ch in (0x5D, 0x7D):
+            d -= 1
+    return m
+
+
+NESTING_DEPTH = 300     # recorded finding: JSON documents nested deeper than this (and accepted by the parser) are stored, then not serialisable
+
+
+def crash_class(R: Dict[str, Any], prefix: List[Dict[str, Any]], exc) -> tuple:
+    """Exceptions out of the WSGI callable that belong to a recorded input class get that class's signature (everything else is
+    signed by method, route shape and exception class):
+      * the response has to be XML and has to carry a string XML cannot represent (lxml refuses it);
+      * a request body of this history is nested deeper than NESTING_DEPTH levels and the interpreter's recursion limit is hit
+        somewhere else than in the parsing of a body (which has its own except clause);
+      * Referable.update_from (PUT) raises AASd-022 because an idShort moves between two NamespaceSets of one namespace."""
+    if exc is None:
+        return None, None
+    name, msg, frames = exc
+    if "http_exception_to_response" in frames:
+        return None, None       # raised while an error result was rendered: not one of the recorded classes
+    if (name == "ValueError" and "must be XML compatible" in msg or name == "UnicodeEncodeError" and "surrogates not allowed" in msg) \
+            and c10.ACCEPTS[R["acc"]][1] in ("xml", "textxml"):
+        return "http:crash:xml-response:string-not-xml-representable", "the XML response has to carry a string that XML cannot represent"
+    if name == "AASConstraintViolation" and "already present in another set in the same namespace" in msg and "update_nss_from" in frames \
+            and R["m"] == "PUT":
+        return ("http:crash:PUT:update_from:idshort-moves-between-sets", "the replacement moves an idShort from one NamespaceSet of a namespace that has "
+                "several (an Operation's variables) to another; Referable.update_from adds before it removes")
+    if name == "RecursionError" and "json_list" not in frames and any(body_depth(Q) > NESTING_DEPTH for Q in prefix):
+        return "http:crash:nesting-depth:RecursionError", f"a request body of the history is nested deeper than {NESTING_DEPTH} levels"
+    return None, None
 
 
 def check_history(reqs: List[Dict[str, Any]], file_backed: bool = False) -> Optional[C.Failing]:
@@ -129,7 +190,7 @@ def check_history(reqs: List[Dict[str, Any]], file_backed: bool = False) -> Opti
 
 ID_CLASSES = ["valid", "valid-unpadded", "unknown", "overpadded", "non-base64", "non-utf8", "non-ascii", "literal-like"]
 PATH_CLASSES = ["valid", "unknown", "deep", "below-property", "bad-char", "empty-segment", "numeric", "too-long", "leading-underscore"]
-BODY_CLASSES = ["ok", "malformed", "array", "absent", "badct", "wrong-class"]
+BODY_CLASSES = ["ok", "malformed", "array", "absent", "badct", "wrong-class", "toodeep"]
 
 
 def id_seg(rng: random.Random, cls: str, i: str) -> str:
@@ -170,7 +231,7 @@ def grid_request(rng: random.Random, snapshot: List[Any], modelled_only: bool) -
     existing = [p for p, _ in c10.all_paths(target["root"])] if target else []
     idc = rng.choice(ID_CLASSES) if rng.random() < 0.5 else "valid"
     pc = rng.choice(PATH_CLASSES) if rng.random() < 0.6 else "valid"
-    bc = rng.choice(BODY_CLASSES)
+    bc = rng.choice(BODY_CLASSES[:6] * 2 + ["toodeep"])
     sid = id_seg(rng, idc, i)
     praw = path_seg(rng, pc, existing)
     qts = [q[0] for q in target["root"].get("q", [])] if target else []
@@ -230,18 +291,559 @@ def grid_request(rng: random.Random, snapshot: List[Any], modelled_only: bool) -
     return c10.mk_req(method, segs, acc, limit=lim, cursor=cur, level=level)
 
 
+# ------------------------------------------------------------------------------------------- the zoo (oracle only)
+# Requests outside the request space of the Lean model: payloads over the whole metamodel (every submodel element class,
+# references of both kinds in every position, asset information, ...), written as JSON documents by hand (not through the SDK),
+# their XML form, structural mutations of both (well-formed JSON/XML that is odd: emptied lists, missing members, members of the
+# wrong type, another modelType - in particular one in sub-/superclass relation with the stored element -, duplicated items,
+# nesting beyond what the parsers follow), strings XML / HTTP headers / ASCII cannot carry, multipart uploads, further query
+# parameters.  The oracle only demands what the statement demands of EVERY request: no exception, no 5xx, a 4xx leaves the
+# store and the file container alone and carries the result structure.
+
+ODD_STRINGS = ["", " ", "a\x0bb", "\x00", "a\r\nX-Injected: 1", "a\nb", "\x7f\x85", "ä€", "\U0001F600", "\ud800", "\udfff\ud800", "￾", "￿", " ",
+               "x" * 3000, "<a>&amp;]]><!--", "%s%d{0}\\", "'\"", "/", "..", "null", "0"]
+HEADER_HOSTILE = ["a\r\nX-Injected: 1", "a\nb", "a\rb", "ä€", "x" * 3000, "a\x0bb", " "]
+XML_HOSTILE = ["a\x0bb", "\x00", "\ud800", "\udfff\ud800", "\ufffe", "\uffff", "\x7f\x85", "<a>&amp;]]><!--", "\U0001F600", "a\r\nb"]
+
+
+def odd(rng: random.Random, key: str = "") -> str:
+    """an odd string, mostly one that is hostile to where an attribute of this name travels (HTTP header / XML text)"""
+    if key == "contentType" and rng.random() < 0.7:
+        return rng.choice(HEADER_HOSTILE)
+    if key in ("value", "text", "min", "max", "category", "name") and rng.random() < 0.6:
+        return rng.choice(XML_HOSTILE)
+    return rng.choice(ODD_STRINGS)
+
+
+def S(rng: random.Random, nice: str, key: str) -> str:
+    """a string-valued attribute: the ordinary value mostly, now and then an odd one"""
+    return nice if rng.random() < 0.93 else odd(rng, key)
+
+
+ELEM_CLASSES = ["Property", "MultiLanguageProperty", "Range", "Blob", "File", "ReferenceElement", "RelationshipElement", "AnnotatedRelationshipElement",
+                "Entity", "BasicEventElement", "Operation", "Capability", "SubmodelElementCollection", "SubmodelElementList"]
+DEPTHS = [120, 260, 400, 700, 1500, 100000]
+
+
+def zoo_ref(rng: random.Random, model_ref: Optional[bool] = None, depth: int = 1) -> Dict[str, Any]:
+    if model_ref is None:
+        model_ref = rng.random() < 0.6
+    if model_ref:
+        keys = [{"type": "Submodel", "value": rng.choice(c10.IDS)}]
+        if rng.random() < 0.4:
+            keys += [{"type": "SubmodelElementCollection", "value": rng.choice(c10.IDSHORTS)}, {"type": "Property", "value": rng.choice(c10.IDSHORTS)}][: rng.randint(1, 2)]
+        r = {"type": "ModelReference", "keys": keys}
+    else:
+        r = {"type": "ExternalReference", "keys": [{"type": "GlobalReference", "value": rng.choice(["urn:x", "https://sem/2"])}]}
+    if depth > 0 and rng.random() < 0.25:
+        r["referredSemanticId"] = zoo_ref(rng, rng.random() < 0.3, depth - 1)
+    return r
+
+
+def zoo_common(rng: random.Random, d: Dict[str, Any]) -> Dict[str, Any]:
+    if rng.random() < 0.35:
+        d["semanticId"] = zoo_ref(rng)
+    if rng.random() < 0.15:
+        d["supplementalSemanticIds"] = [zoo_ref(rng) for _ in range(rng.randint(1, 2))]
+    if rng.random() < 0.3:
+        d["qualifiers"] = [{"type": t, "valueType": "xs:string", "value": S(rng, f"v{rng.randrange(3)}", "value"), **({"valueId": zoo_ref(rng)} if rng.random() < 0.3 else {})}
+                           for t in c10.QTYPES if rng.random() < 0.6]
+        if not d["qualifiers"]:
+            del d["qualifiers"]
+    if rng.random() < 0.4:
+        d["description"] = [{"language": "en", "text": S(rng, f"t{rng.randrange(4)}", "text")}]
+    if rng.random() < 0.15:
+        d["displayName"] = [{"language": "de", "text": "n"}]
+    if rng.random() < 0.15:
+        d["category"] = S(rng, rng.choice(["PARAMETER", "x"]), "category")
+    if rng.random() < 0.15:
+        d["extensions"] = [{"name": "e1", "valueType": "xs:string", "value": "x", **({"refersTo": [zoo_ref(rng, True)]} if rng.random() < 0.5 else {})}]
+    return d
+
+
+def zoo_elem(rng: random.Random, ids: Optional[str], depth: int = 2, cls: Optional[str] = None) -> Dict[str, Any]:
+    # classes that take part in an inheritance relation among the concrete element classes are drawn more often
+    cls = cls or rng.choice(ELEM_CLASSES + [c for c in ELEM_CLASSES if related_classes(c)] * 2)
+    d: Dict[str, Any] = {"modelType": cls}
+    if ids is not None:
+        d["idShort"] = ids
+    kids = lambda: [zoo_elem(rng, n, depth - 1) for n in rng.sample(c10.IDSHORTS, rng.randint(0, 2))] if depth > 0 else []
+    data = lambda n: zoo_elem(rng, n, 0, rng.choice(["Property", "Range", "MultiLanguageProperty", "Blob", "File", "ReferenceElement"]))
+    if cls == "Property":
+        d.update(valueType="xs:string", value=S(rng, rng.choice(["v", "", "1"]), "value"))
+        if rng.random() < 0.2:
+            d["valueId"] = zoo_ref(rng)
+    elif cls == "MultiLanguageProperty":
+        d["value"] = [{"language": "en", "text": S(rng, "x", "text")}]
+    elif cls == "Range":
+        d.update(valueType="xs:int", min="1", max="2")
+    elif cls == "Blob":
+        d.update(contentType=S(rng, rng.choice(c10.ATT_CTYPES), "contentType"))
+        if rng.random() < 0.7:
+            d["value"] = base64.b64encode(rng.choice(c10.FILE_BYTES)).decode("ascii")
+    elif cls == "File":
+        d.update(contentType=S(rng, rng.choice(c10.ATT_CTYPES), "contentType"))
+        if rng.random() < 0.4:
+            d["value"] = S(rng, rng.choice(c10.FILE_NAMES + ["http://x/y.txt", "file.txt"]), "value")
+    elif cls == "ReferenceElement":
+        if rng.random() < 0.8:
+            d["value"] = zoo_ref(rng)
+    elif cls in ("RelationshipElement", "AnnotatedRelationshipElement"):
+        d.update(first=zoo_ref(rng), second=zoo_ref(rng))
+        if cls == "AnnotatedRelationshipElement" and rng.random() < 0.6:
+            d["annotations"] = [data(n) for n in rng.sample(c10.IDSHORTS, rng.randint(1, 2))]
+    elif cls == "Entity":
+        if rng.random() < 0.5:
+            d.update(entityType="SelfManagedEntity", globalAssetId="urn:asset")
+        else:
+            d.update(entityType="CoManagedEntity")
+        if rng.random() < 0.5:
+            d["statements"] = kids()
+    elif cls == "BasicEventElement":
+        d.update(observed=zoo_ref(rng, True), direction=rng.choice(["input", "output"]), state=rng.choice(["on", "off"]))
+    elif cls == "Operation":
+        for k in ("inputVariables", "outputVariables", "inoutputVariables"):
+            if rng.random() < 0.4:
+                d[k] = [{"value": data(n)} for n in rng.sample(c10.IDSHORTS, rng.randint(1, 2))]
+    elif cls == "SubmodelElementCollection":
+        d["value"] = kids()
+    elif cls == "SubmodelElementList":
+        d.update(typeValueListElement="Property", valueTypeListElement="xs:string",
+                 value=[{"modelType": "Property", "valueType": "xs:string", "value": str(k)} for k in range(rng.randint(0, 2))])
+    return zoo_common(rng, d)
+
+
+def zoo_doc(rng: random.Random, kind: str, i: str, ids: Optional[str] = None) -> Dict[str, Any]:
+    """a JSON document of the class `kind` (sm | shell | cd | elem | qual | ref | ainfo)"""
+    if kind == "sm":
+        d = {"modelType": "Submodel", "id": i, "submodelElements": [zoo_elem(rng, n) for n in rng.sample(c10.IDSHORTS, rng.randint(0, 3))]}
+        if rng.random() < 0.5:
+            d["idShort"] = rng.choice(["x1", "sh"])
+        if rng.random() < 0.3:
+            d["kind"] = rng.choice(["Instance", "Template"])
+        if rng.random() < 0.2:
+            d["administration"] = {"version": "1", "revision": "0"}
+        return zoo_common(rng, d)
+    if kind == "shell":
+        ai: Dict[str, Any] = {"assetKind": rng.choice(["Instance", "Type", "NotApplicable"]), "globalAssetId": "g"}
+        if rng.random() < 0.4:
+            ai["specificAssetIds"] = [{"name": "n", "value": "v", **({"externalSubjectId": zoo_ref(rng, False, 0)} if rng.random() < 0.5 else {})}]
+        d = {"modelType": "AssetAdministrationShell", "id": i, "assetInformation": ai}
+        if rng.random() < 0.7:
+            d["submodels"] = [dict(zoo_ref(rng, True, 1), keys=[{"type": "Submodel", "value": x}]) for x in rng.sample(c10.IDS, rng.randint(1, 2))]
+        if rng.random() < 0.3:
+            d["derivedFrom"] = {"type": "ModelReference", "keys": [{"type": "AssetAdministrationShell", "value": rng.choice(c10.IDS)}]}
+        if rng.random() < 0.5:
+            d["idShort"] = rng.choice(["x1", "sh"])
+        d = zoo_common(rng, d)
+        d.pop("semanticId", None), d.pop("supplementalSemanticIds", None), d.pop("qualifiers", None)
+        return d
+    if kind == "cd":
+        d = {"modelType": "ConceptDescription", "id": i}
+        if rng.random() < 0.5:
+            d["isCaseOf"] = [zoo_ref(rng, False, 0)]
+        d = zoo_common(rng, d)
+        d.pop("semanticId", None), d.pop("supplementalSemanticIds", None), d.pop("qualifiers", None)
+        return d
+    if kind == "elem":
+        return zoo_elem(rng, ids)
+    if kind == "qual":
+        return {"type": rng.choice(c10.QTYPES), "valueType": "xs:string", "value": "v1", **({"valueId": zoo_ref(rng)} if rng.random() < 0.5 else {}),
+                **({"semanticId": zoo_ref(rng)} if rng.random() < 0.3 else {})}
+    if kind == "ref":
+        return dict(zoo_ref(rng, True, 1), keys=[{"type": "Submodel", "value": i}])
+    if kind == "ainfo":
+        return {"assetKind": "Instance", "globalAssetId": "g2", "specificAssetIds": [{"name": "n", "value": "v"}]}
+    raise ValueError(kind)
+
+
+def _paths(doc: Any, pre=()) -> List[tuple]:
+    out = [pre]
+    if isinstance(doc, dict):
+        for k, v in doc.items():
+            out += _paths(v, pre + (k,))
+    elif isinstance(doc, list):
+        for k, v in enumerate(doc):
+            out += _paths(v, pre + (k,))
+    return out
+
+
+def _get(doc, path):
+    for k in path:
+        doc = doc[k]
+    return doc
+
+
+def _set(doc, path, v):
+    if not path:
+        return v
+    _get(doc, path[:-1])[path[-1]] = v
+    return doc
+
+
+def nest(shape: str, depth: int) -> bytes:
+    """documents nested `depth` levels deep"""
+    if shape == "array":
+        return b"[" * depth + b"]" * depth
+    if shape == "open-array":
+        return b"[" * depth
+    if shape == "object":
+        return b'{"a":' * depth + b"1" + b"}" * depth
+    if shape == "collection":     # a well-formed submodel element: collections within collections
+        return (b'{"modelType":"SubmodelElementCollection","idShort":"c1","value":[' * depth + b'{"modelType":"Property","idShort":"a","valueType":"xs:string"}'
+                + b"]}" * depth)
+    if shape == "xml":
+        return b'<a xmlns="https://admin-shell.io/aas/3/0">' + b"<a>" * depth + b"</a>" * depth + b"</a>"
+    raise ValueError(shape)
+
+
+def mutate_json(rng: random.Random, doc: Any) -> Any:
+    """one structural mutation; the result is a well-formed JSON value"""
+    import copy as _copy
+    doc = _copy.deepcopy(doc)
+    ps = _paths(doc)
+    lists = [p for p in ps if isinstance(_get(doc, p), list)]
+    dicts = [p for p in ps if isinstance(_get(doc, p), dict)]
+    strs = [p for p in ps if isinstance(_get(doc, p), str)]
+    inner = [p for p in ps if p]
+    m = rng.choice(["empty-list", "empty-list", "drop-member", "drop-member", "wrong-type", "odd-string", "odd-string", "model-type", "duplicate-item",
+                    "unknown-member", "ref-type", "wrap", "null-member", "deep-member", "key-type"])
+    try:
+        if m == "empty-list" and lists:
+            p = rng.choice(lists)
+            doc = _set(doc, p, [])
+        elif m == "drop-member" and dicts:
+            p = rng.choice(dicts)
+            d = _get(doc, p)
+            if d:
+                del d[rng.choice(sorted(d))]
+        elif m == "wrong-type" and inner:
+            doc = _set(doc, rng.choice(inner), rng.choice([None, [], {}, 0, -1, 1.5, True, "x", [[]], [None], {"a": 1}, 10 ** 30]))
+        elif m == "null-member" and inner:
+            doc = _set(doc, rng.choice(inner), None)
+        elif m == "odd-string" and strs:
+            free = [p for p in strs if p[-1] in ("value", "text", "contentType", "min", "max", "category", "name", "globalAssetId", "version", "revision")]
+            p = rng.choice(free if free and rng.random() < 0.6 else strs)
+            doc = _set(doc, p, odd(rng, p[-1] if p and isinstance(p[-1], str) else ""))
+        elif m == "model-type":
+            ts = [p for p in strs if p and p[-1] == "modelType"]
+            if ts:
+                doc = _set(doc, rng.choice(ts), rng.choice(ELEM_CLASSES + ["Submodel", "AssetAdministrationShell", "ConceptDescription", "DataElement", "Nonsense"]))
+        elif m == "duplicate-item" and lists:
+            l = _get(doc, rng.choice(lists))
+            if l:
+                l.append(_copy.deepcopy(rng.choice(l)))
+        elif m == "unknown-member" and dicts:
+            _get(doc, rng.choice(dicts))[rng.choice(["x", "modelType", "keys", "value", "id"])] = rng.choice(["y", [], {}, None])
+        elif m == "ref-type":
+            ts = [p for p in strs if p and p[-1] == "type" and _get(doc, p) in ("ModelReference", "ExternalReference")]
+            if ts:
+                p = rng.choice(ts)
+                doc = _set(doc, p, "ExternalReference" if _get(doc, p) == "ModelReference" else "ModelReference")
+        elif m == "key-type":
+            ts = [p for p in strs if len(p) >= 3 and p[-1] == "type" and p[-3] == "keys"]
+            if ts:
+                doc = _set(doc, rng.choice(ts), rng.choice(["Submodel", "Property", "GlobalReference", "FragmentReference", "AssetAdministrationShell", "Nonsense"]))
+        elif m == "wrap":
+            doc = rng.choice([[doc], [doc, doc], {"a": doc}, [[doc]]])
+        elif m == "deep-member" and inner:
+            doc = _set(doc, rng.choice(inner), f"@@DEEP{rng.choice([150, 400, 1100])}@@")      # expanded by json_bytes
+    except (KeyError, IndexError, TypeError):
+        pass
+    return doc
+
+
+def json_bytes(doc: Any) -> bytes:
+    import re
+    txt = json.dumps(doc)
+    return re.sub(r'"@@DEEP(\d+)@@"', lambda m: "[" * int(m.group(1)) + '"x"' + "]" * int(m.group(1)), txt).encode("ascii")
+
+
+def xml_of(kind: str, doc: Dict[str, Any]) -> Optional[bytes]:
+    """the XML form of a JSON document (through the SDK: its JSON reader and its XML writer), None if the SDK does not take it"""
+    from basyx.aas import model
+    from basyx.aas.adapter.json import StrictAASFromJsonDecoder as D
+    from basyx.aas.adapter.xml import xml_serialization
+    from basyx.aas.adapter._generic import XML_NS_MAP
+    from lxml import etree
+    NS = "{" + XML_NS_MAP["aas"] + "}"
+    try:
+        if kind in ("sm", "shell", "cd", "elem"):
+            o = json.loads(json.dumps(doc), cls=D)
+            if not isinstance(o, model.Referable):
+                return None
+            return etree.tostring(xml_serialization.object_to_xml_element(o))
+        if kind == "qual":
+            return etree.tostring(xml_serialization.qualifier_to_xml(D._construct_qualifier(doc), NS + "qualifier"))
+        if kind == "ref":
+            return etree.tostring(xml_serialization.reference_to_xml(D._construct_model_reference(doc, model.Submodel), NS + "reference"))
+        if kind == "ainfo":
+            return etree.tostring(xml_serialization.asset_information_to_xml(D._construct_asset_information(doc, model.AssetInformation), NS + "assetInformation"))
+    except Exception:
+        return None
+    return None
+
+
+def mutate_xml(rng: random.Random, data: bytes) -> bytes:
+    """one structural mutation of a well-formed XML document; the result is well-formed"""
+    from lxml import etree
+    import copy as _copy
+    try:
+        root = etree.fromstring(data)
+    except Exception:
+        return data
+    els = list(root.iter())
+    inner = [e for e in els if e is not root]
+    leaves = [e for e in els if len(e) == 0]
+    m = rng.choice(["clear", "clear", "remove", "remove", "text", "text", "duplicate", "rename", "swap", "root"])
+    try:
+        if m == "clear" and inner:
+            e = rng.choice([e for e in inner if len(e)] or inner)
+            for c in list(e):
+                e.remove(c)
+            e.text = None
+        elif m == "remove" and inner:
+            e = rng.choice(inner)
+            e.getparent().remove(e)
+        elif m == "text" and leaves:
+            e = rng.choice(leaves)
+            t = rng.choice([x for x in ODD_STRINGS if x and x.isprintable() and not any(0xD800 <= ord(c) <= 0xDFFF or ord(c) in (0xFFFE, 0xFFFF) for c in x)]
+                           + ["ModelReference", "ExternalReference", "Submodel", "xs:int", "true", "-1"])
+            e.text = t
+        elif m == "duplicate" and inner:
+            e = rng.choice(inner)
+            e.addnext(_copy.deepcopy(e))
+        elif m == "rename" and inner:
+            e = rng.choice(inner)
+            ns = e.tag.split("}")[0] + "}" if "}" in e.tag else ""
+            e.tag = ns + rng.choice(["relationshipElement", "annotatedRelationshipElement", "property", "submodelElementCollection", "file", "blob", "submodel",
+                                     "keys", "key", "value", "reference", "x"])
+        elif m == "swap" and len(inner) > 1:
+            a, b = rng.sample(inner, 2)
+            a.tag, b.tag = b.tag, a.tag
+        elif m == "root":
+            ns = root.tag.split("}")[0] + "}" if "}" in root.tag else ""
+            root.tag = rng.choice([ns, ""]) + rng.choice(["submodel", "assetAdministrationShell", "conceptDescription", "property", "reference", "qualifier", "x"])
+    except Exception:
+        return data
+    return etree.tostring(root)
+
+
+_RELATED: Dict[str, List[str]] = {}
+
+
+def related_classes(cls: str) -> List[str]:
+    """the concrete submodel element classes in sub-/superclass relation with `cls` (read off the SDK's class hierarchy)"""
+    if not _RELATED:
+        from basyx.aas import model
+        def subs(c):
+            for x in c.__subclasses__():
+                yield x
+                yield from subs(x)
+        concrete = {c.__name__: c for c in subs(model.SubmodelElement) if c.__name__ in ELEM_CLASSES}
+        for n, c in concrete.items():
+            _RELATED[n] = sorted(m for m, d in concrete.items() if m != n and (issubclass(d, c) or issubclass(c, d)))
+    return _RELATED.get(cls, [])
+
+
+ABS_CLASS = {"prop": "Property", "coll": "SubmodelElementCollection", "file": "File", "blob": "Blob"}
+
+
+def stored_class(e: Optional[Dict[str, Any]]) -> Optional[str]:
+    if e is None:
+        return None
+    k = e.get("k", "")
+    return ABS_CLASS.get(k) or (k[6:] if k.startswith("other:") else None)
+
+
+def zoo_request(rng: random.Random, snapshot: List[Any], setup: bool = False) -> Dict[str, Any]:
+    """setup: a well-formed POST of a submodel (mostly) or a shell, as it is (something for the later requests to work on)"""
+    by = lambda k: [o for o in snapshot if o.get("k") == k]
+    sms, shells, cds = by("sm"), by("shell"), by("cd")
+    if setup:
+        kind = "sm" if not sms or rng.random() < 0.7 else "shell"
+        i = rng.choice([x for x in c10.IDS if all(o.get("id") != x for o in snapshot)] or c10.IDS)
+        doc = zoo_doc(rng, kind, i)
+        if kind == "sm" and len(doc["submodelElements"]) < 2:
+            doc["submodelElements"] = [zoo_elem(rng, n) for n in c10.IDSHORTS]
+        return c10.mk_req("POST", [c10.TOP[kind]], rng.choice([0, 1, 2]), 0, "raw", json_bytes(doc))
+    acc = rng.choice([0, 1, 2, 2, 3, 4, 6, 7, rng.randrange(len(c10.ACCEPTS))])
+    level = rng.choice([None, None, None, "core", "deep"])
+    r = rng.random()
+    tsm = rng.choice(sms) if sms and rng.random() < 0.85 else None
+    smid = tsm["id"] if tsm else rng.choice(c10.IDS)
+    paths = c10.all_paths(tsm["root"]) if tsm else []
+    seg = lambda i: c10.b64(i, rng.random() < 0.7)
+    kind = "sm"
+    doc: Any = None
+    method, segs = "GET", ["submodels"]
+    xq = None
+    form = None
+    if r < 0.16 or not sms:
+        i = rng.choice([x for x in c10.IDS if all(o.get("id") != x for o in snapshot)] or c10.IDS)
+        method, segs, kind, doc = "POST", ["submodels"], "sm", zoo_doc(rng, "sm", i)
+    elif r < 0.24:
+        method, segs, kind, doc = "PUT", ["submodels", seg(smid)], "sm", zoo_doc(rng, "sm", smid if rng.random() < 0.9 else rng.choice(c10.IDS))
+    elif r < 0.36:
+        colls = [p for p, e in paths if stored_class(e) in ("SubmodelElementCollection",)]
+        p = rng.choice(colls) if colls and rng.random() < 0.4 else []
+        method, segs, kind = "POST", ["submodels", seg(smid), "submodel-elements"] + ([".".join(p)] if p else []), "elem"
+        doc = zoo_elem(rng, rng.choice(c10.IDSHORTS + [None]) if rng.random() < 0.9 else rng.choice(ODD_STRINGS))
+    elif r < 0.54:
+        # PUT of an element: mostly onto one that is stored, with its own class, a class related to it by inheritance, or any other
+        if paths and rng.random() < 0.9:
+            with_rel = [(p, e) for p, e in paths if related_classes(stored_class(e) or "")]
+            p, e = rng.choice(with_rel if with_rel and rng.random() < 0.5 else paths)
+            cls = stored_class(e)
+            rel = related_classes(cls) if cls else []
+            x = rng.random()
+            body_cls = cls if (x < 0.4 or not rel and x < 0.75) and cls in ELEM_CLASSES else (rng.choice(rel) if rel and x < 0.8 else rng.choice(ELEM_CLASSES))
+        else:
+            p, body_cls = c10.rand_path(rng), rng.choice(ELEM_CLASSES)
+        method, segs, kind = "PUT", ["submodels", seg(smid), "submodel-elements", ".".join(p)], "elem"
+        doc = zoo_elem(rng, p[-1] if rng.random() < 0.9 else rng.choice(c10.IDSHORTS), 2, body_cls)
+    elif r < 0.62:
+        sh = rng.choice(shells)["id"] if shells and rng.random() < 0.8 else rng.choice(c10.IDS)
+        x = rng.random()
+        if x < 0.4 or not shells:
+            method, segs, kind, doc = "POST", ["shells"], "shell", zoo_doc(rng, "shell", rng.choice(c10.IDS))
+        elif x < 0.6:
+            method, segs, kind, doc = "PUT", ["shells", seg(sh)], "shell", zoo_doc(rng, "shell", sh)
+        elif x < 0.75:
+            method, segs, kind, doc = "PUT", ["shells", seg(sh), "asset-information"], "ainfo", zoo_doc(rng, "ainfo", sh)
+        elif x < 0.9:
+            method, segs, kind, doc = "POST", ["shells", seg(sh), "submodel-refs"], "ref", zoo_doc(rng, "ref", smid)
+        else:
+            method, segs, kind, doc = "PUT", ["shells", seg(sh), "submodels", seg(smid)], "sm", zoo_doc(rng, "sm", smid)
+    elif r < 0.67:
+        i = rng.choice(cds)["id"] if cds and rng.random() < 0.6 else rng.choice(c10.IDS)
+        if rng.random() < 0.5:
+            method, segs, kind, doc = "POST", ["concept-descriptions"], "cd", zoo_doc(rng, "cd", i)
+        else:
+            method, segs, kind, doc = "PUT", ["concept-descriptions", seg(i)], "cd", zoo_doc(rng, "cd", i)
+    elif r < 0.73:
+        p = rng.choice(paths)[0] if paths and rng.random() < 0.5 else None
+        base = ["submodels", seg(smid)] + (["submodel-elements", ".".join(p)] if p else []) + ["qualifiers"]
+        doc, kind = zoo_doc(rng, "qual", ""), "qual"
+        if rng.random() < 0.5:
+            method, segs = "POST", base
+        else:
+            method, segs = "PUT", base + [seg(rng.choice(c10.QTYPES))]
+    elif r < 0.85:
+        # attachments: uploads (well-formed and not), downloads, deletions — mostly on Files / Blobs that exist
+        atts = [p for p, e in paths if stored_class(e) in ("File", "Blob")]
+        p = rng.choice(atts) if atts and rng.random() < 0.85 else (rng.choice(paths)[0] if paths else c10.rand_path(rng))
+        segs = ["submodels", seg(smid), "submodel-elements", ".".join(p), "attachment"]
+        method = rng.choice(["PUT", "PUT", "GET", "GET", "GET", "DELETE"])
+        if method == "PUT":
+            fname = rng.choice(c10.FILE_NAMES * 3 + ["a.txt", None] + ODD_STRINGS[:8])
+            mime = rng.choice(c10.ATT_CTYPES * 3 + ["", "text/plain; charset=x", ODD_STRINGS[4]])
+            form = {"fileName": fname, "file": rng.choice([[base64.b64encode(rng.choice(c10.FILE_BYTES)).decode("ascii"), rng.choice(["a.txt", "", "ä"]), mime]] * 6 + [None])}
+    else:
+        # reads with further query parameters: filters (well-formed and not), redirects, references, metadata
+        sho = rng.choice(shells) if shells and rng.random() < 0.8 else None
+        sh = sho["id"] if sho else rng.choice(c10.IDS)
+        if sho and sho.get("refs") and rng.random() < 0.8:
+            smid = rng.choice(sho["refs"])        # the routes through a shell's reference: mostly one that it holds
+        p = rng.choice(paths)[0] if paths and rng.random() < 0.7 else c10.rand_path(rng)
+        # the JSON documents that travel in query parameters: as they are, or mutated like the bodies
+        qdoc = lambda d: c10.b64(json_bytes(d if rng.random() < 0.5 else mutate_json(rng, d)).decode("ascii"))
+        ref_b64 = qdoc(zoo_ref(rng, None, 1))
+        said = qdoc({"name": "n", "value": "v", **({"externalSubjectId": zoo_ref(rng, False, 0)} if rng.random() < 0.4 else {})})
+        segs = rng.choice([["shells", seg(sh), "submodels", seg(smid)], ["shells", seg(sh), "submodels", seg(smid), "submodel-elements", ".".join(p)],
+                           ["shells", seg(sh), "submodels", seg(smid)], ["submodels"], ["shells"], ["shells", "$reference"], ["submodels", "$reference"],
+                           ["submodels", "$metadata"], ["submodels", seg(smid), "$reference"], ["submodels", seg(smid), "submodel-elements", "$reference"],
+                           ["submodels", seg(smid), "submodel-elements", ".".join(p), "$reference"], ["submodels", seg(smid), "submodel-elements", ".".join(p), "$metadata"],
+                           ["shells", seg(sh), "asset-information"], ["shells", seg(sh), "$reference"], ["concept-descriptions"]])
+        xq = rng.choice([None, "x=ä", "x=%FF", "ä", "level=cor\xe9", "idShort=x1", "idShort=" + urllib.parse.quote(rng.choice(ODD_STRINGS[:9]), errors="surrogatepass"),
+                         "semanticId=" + ref_b64, "semanticId=" + ref_b64, "semanticId=" + ref_b64, "semanticId=A", "semanticId=" + c10.b64("[]"),
+                         "assetIds=" + said, "assetIds=" + said, "assetIds=" + said + "&assetIds=" + c10.b64("5"), "assetIds=%FF", "limit=1&limit=x",
+                         "cursor=1&x=" + "y" * 3000, "a=1&a=2&b[]=3;c", "=", "&&", "%", "%00", "x=\x00y"])
+    # the body: the document as JSON or XML, as it is or mutated
+    if doc is None:
+        return c10.mk_req(method, segs, acc, level=level, xq=xq, form=form)
+    fmt_xml = rng.random() < 0.35
+    x = rng.random()
+    ct = rng.choice([1, 2, 3]) if fmt_xml else rng.choice([0, 0, 4])
+    if x < 0.06:
+        d = rng.choice(DEPTHS)
+        shape = "xml" if fmt_xml else rng.choice(["array", "open-array", "object", "collection"])
+        data = nest(shape, min(d, 3000) if shape == "collection" else d)
+        if shape == "collection" and kind == "sm":
+            data = b'{"modelType":"Submodel","id":' + json.dumps(doc.get("id", "s")).encode() + b',"submodelElements":[' + data + b"]}"
+    elif fmt_xml:
+        data = xml_of(kind, doc)
+        if data is None:
+            ct, data = 0, json_bytes(doc)
+        elif x < 0.5:
+            for _ in range(rng.choice([1, 1, 2])):
+                data = mutate_xml(rng, data)
+    else:
+        if x < 0.5:
+            for _ in range(rng.choice([1, 1, 2])):
+                doc = mutate_json(rng, doc)
+        data = json_bytes(doc)
+    if rng.random() < 0.03:
+        ct = rng.choice([5, 6])
+    return c10.mk_req(method, segs, acc, ct, "raw", data, level=level, xq=xq)
+
+
+def read_back(rng: random.Random, R: Dict[str, Any], out: Any, snap: List[Any]) -> List[Dict[str, Any]]:
+    """after an accepted write: the written resource read in the other representation(s), the attachments of its Files / Blobs"""
+    if R["m"] not in ("POST", "PUT") or out[0] != "resp" or not 200 <= out[1] < 300:
+        return []
+    segs = R["segs"]
+    top = segs[0] if segs else ""
+    kind = {"submodels": "sm", "shells": "shell", "concept-descriptions": "cd"}.get(top)
+    if kind is None:
+        return []
+    i = None
+    if len(segs) >= 2:
+        d = c10.b64_outcome(segs[1])
+        i = d[1] if isinstance(d, list) else None
+    elif isinstance(out[2], list) and len(out[2]) == 2:
+        i = out[2][1]
+    o = next((x for x in snap if x.get("k") == kind and x.get("id") == i), None)
+    if o is None:
+        return []
+    acc = rng.choice([2, 2, 3, 1])
+    rs = [c10.mk_req("GET", [top, c10.b64(i)], acc, level=rng.choice([None, None, "core"]))]
+    if kind == "sm":
+        atts = [p for p, e in c10.all_paths(o["root"]) if stored_class(e) in ("File", "Blob")]
+        for p in rng.sample(atts, min(len(atts), 3)):
+            rs.append(c10.mk_req("GET", [top, c10.b64(i), "submodel-elements", ".".join(p), "attachment"], rng.choice([0, 2])))
+        if len(segs) >= 4 and segs[2] == "submodel-elements" and segs[3] not in LITERALS:
+            rs.append(c10.mk_req("GET", segs[:4], acc))
+    return rs
+
+
 class GridHistory(c10.Lazy):
     def __init__(self, seed: str, length: int, modelled_only: bool):
         self.rng = random.Random(seed)
         self.length = length
         self.modelled_only = modelled_only
+        self.last: Any = None        # (request, outcome) of the request yielded last, if the caller reports it (oracle)
+
+    def feedback(self, R, out):
+        self.last = (R, out)
 
     def requests(self, snapshot_fn):
         for k in range(self.length):
             snap = snapshot_fn()
+            if self.last is not None and not self.modelled_only and self.rng.random() < 0.6:
+                R0, out0 = self.last
+                self.last = None
+                for R in read_back(self.rng, R0, out0, snap):
+                    yield R
+                self.last = None
+                snap = snapshot_fn()
             # keep some state around so that rejected requests have something they could damage
-            if k < 3 or (not snap and self.rng.random() < 0.5):
+            if not self.modelled_only and (k < 2 or not snap):
+                yield zoo_request(self.rng, snap, setup=True)
+            elif k < 3 or (not snap and self.rng.random() < 0.5):
                 yield c10.gen_request(self.rng, 0.0, snap)
+            elif not self.modelled_only and self.rng.random() < 0.62:
+                yield zoo_request(self.rng, snap)
             else:
                 yield grid_request(self.rng, snap, self.modelled_only)
 
@@ -249,8 +851,8 @@ class GridHistory(c10.Lazy):
 def correspond(ctx: C.Ctx, cov: C.Coverage) -> List[C.Disagreement]:
     rng = random.Random(f"C11:{ctx.seed}")
     cov.rule = ("request class grid: 28 route shapes (all modelled routes, the declared-unimplemented ones, unknown routes) x 8 methods x 8 identifier "
-                "classes (valid, unpadded, unknown, over-padded, non-base64, non-UTF-8, non-ASCII, literal-like) x 9 idShort-path classes x 6 body "
-                "classes (ok, malformed from a pool of 17, array, absent, unsupported content type, wrong class) in JSON and XML x 8 Accept x 7 "
+                "classes (valid, unpadded, unknown, over-padded, non-base64, non-UTF-8, non-ASCII, literal-like) x 9 idShort-path classes x 7 body "
+                "classes (ok, malformed from a pool of 17, nested too deep for the parser, array, absent, unsupported content type, wrong class) in JSON and XML x 8 Accept x 7 "
                 "Content-Type variants x 15 limit/cursor values x level, against stores built up by well-formed requests; status, Location, "
                 "payload and the complete store snapshot compared with the model after every request. non-trivial = the request is rejected "
                 "for a reason other than unknown route; distinct = (method, route shape, status)")
@@ -286,22 +888,32 @@ def oracle(ctx: C.Ctx, cov: C.Coverage) -> List[C.Failing]:
     rng = random.Random(f"C11-oracle:{ctx.seed}")
     out: List[C.Failing] = []
     sigs = set()
-    for k in range(ctx.budget(120, 1100)):
+    cov.extra["oracle"] = ("request histories on the implementation alone (dict- and file-backed), every request judged by the statement: the class grid "
+                           "of the tie extended by the unmodelled routes, plus the zoo: JSON documents over the whole metamodel (14 submodel element "
+                           "classes, both reference kinds in every position, asset information, qualifiers, extensions), their XML form, structural "
+                           "mutations of both (emptied lists, dropped / null / wrong-typed members, other modelType, duplicates, reference and key "
+                           "types, renamed / removed / emptied XML elements), bodies nested 120..100000 deep, strings hostile to XML text and HTTP "
+                           "headers, PUT bodies of the stored class / a class related to it by inheritance / any class, multipart uploads "
+                           "(well-formed and not), raw query strings (non-ASCII, idShort / semanticId / assetIds filters carrying JSON, mutated), "
+                           "read-back of every accepted write in XML and of its attachments; the snapshot compared around a 4xx holds every "
+                           "stored object in full and the file container")
+    for k in range(ctx.budget(400, 3000)):
         fb = k % 6 == 5
-        srv = c10.Server(fb)
-        reqs: List[Dict[str, Any]] = []
+        chk = Checker(fb)
         try:
             h = GridHistory(f"o:{ctx.seed}:{k}", rng.randint(8, 16), False)
-            for R in h.requests(srv.snapshot):
-                reqs.append(R)
-                srv.send(R)
+            for R in h.requests(chk.srv.snapshot):
+                o = chk.step(R)
+                h.feedback(R, o)
+                cov.hit(f"oracle:{'zoo' if R['body'] == 'raw' or R.get('form') or R.get('xq') else 'grid'}:{R['m']}:{o[1] if o[0] == 'resp' else 'crash'}")
+            # special inputs the grid cannot draw by chance
+            if k % 10 == 0:
+                for R in special_requests(rng):
+                    chk.step(R)
         finally:
-            srv.close()
-        # special inputs the grid cannot draw by chance
-        if k % 10 == 0:
-            reqs += special_requests(rng)
+            chk.close()
         cov.hit("oracle-histories")
-        for f in check_history_all(reqs, fb):
+        for f in chk.fails:
             if f.sig not in sigs:
                 sigs.add(f.sig)
                 f.case["reqs"] = C.ddmin(f.case["reqs"], lambda rs, f=f, fb=fb: (lambda g: g is not None and g.sig == f.sig)(check_history(rs, fb)), 60)
